@@ -322,6 +322,9 @@ def evaluate(c):
             ('two', lambda: [mm.Impedance_Load(37 - 12j), mm.Series_RLC_Load(5, 1e-6, None)], 37 - 12j + circuit.series_rlc(f, 5, 1e-6, None)[0]),
             ('three', lambda: [mm.Impedance_Load(-3 + 40j), mm.Trap_Load(2., 1e-6, 50e-12), mm.Laplace_Load(a=[1., 2e-9], b=[10., 3e-6])],
              -3 + 40j + circuit.trap(f, 2., 1e-6, 50e-12)[0] + circuit.laplace(f, [1., 2e-9], [10., 3e-6])[0]),
+            # one load object attached two / three times to the same pulse acts as that many loads in series
+            ('twice', lambda: [mm.Impedance_Load(37 - 12j)] * 2, 2 * (37 - 12j)),
+            ('thrice', lambda: [mm.Series_RLC_Load(5, 1e-6, 2e-10)] * 3, 3 * circuit.series_rlc(f, 5, 1e-6, 2e-10)[0]),
             ('zero', lambda: [mm.Impedance_Load(0j)], 0j),
             ('rlc-zero', lambda: [mm.Series_RLC_Load(0, 0, 0)], 0j),
         ]
